@@ -33,10 +33,12 @@ func operandLayouts(c *core.Ctx) []string {
 		return []string{"C", "F", "Fconv", "FT", "FS", "FSS"}
 	}
 	if c.Prop == "C08" {
-		// reductions also meet a lazily transposed stepped view (whose storage window has gaps that a whole-tensor fold must skip)
-		return []string{"C", "T", "S", "SS", "MS", "F", "TS"}
+		// reductions also meet a lazily transposed stepped view (whose storage window has gaps that a whole-tensor fold must skip),
+		// a stepped view of a transposed tensor, the slice of a stepped slice, the clone of a stepped slice (an owner with gaps),
+		// two stacked rotations and the whole-slice view of a transposed tensor (stale strides on unit axes)
+		return []string{"C", "T", "S", "SS", "MS", "F", "TS", "ST", "SSS", "CSS", "TT", "TF"}
 	}
-	return []string{"C", "T", "S", "SS", "MS", "F"}
+	return []string{"C", "T", "S", "SS", "MS", "F", "ST", "TS", "SSS", "CSS", "TT", "TF"}
 }
 
 func shapeStr(s []int) string {
